@@ -33,6 +33,43 @@ type c04Case struct {
 	Stale  bool  `json:"tx_carries_signer_side_prevout"`
 	// Hi: numeric mutations change the most significant byte of the field instead of the least
 	Hi bool `json:"mutate_top_byte,omitempty"`
+	// Form: how the inscription envelope is written. 0 = minimal pushes (the template as Inscribe makes
+	// it); 1/2/3 = the content pushed through OP_PUSHDATA1/2/4; 4 = "ord" through OP_PUSHDATA1 and the
+	// content type through OP_PUSHDATA2; 5 = the key hash through OP_PUSHDATA1. All of them are
+	// inscriptions to the library's recogniser, so the library signs them
+	Form int `json:"inscription_push_form,omitempty"`
+	// All: every input spends the same script and all are signed at once through FillAllInputs
+	All bool `json:"fill_all_inputs,omitempty"`
+}
+
+// c04InscLock builds a P2PKH inscription locking script in the given push form.
+func c04InscLock(hash []byte, form int) []byte {
+	pd := func(d []byte, w int) []byte {
+		switch w {
+		case 1:
+			return append([]byte{0x4c, byte(len(d))}, d...)
+		case 2:
+			return append([]byte{0x4d, byte(len(d)), byte(len(d) >> 8)}, d...)
+		case 4:
+			return append([]byte{0x4e, byte(len(d)), byte(len(d) >> 8), 0, 0}, d...)
+		}
+		return append([]byte{byte(len(d))}, d...)
+	}
+	wHash, wOrd, wCT, wData := 0, 0, 0, 0
+	switch form {
+	case 1:
+		wData = 1
+	case 2:
+		wData = 2
+	case 3:
+		wData = 4
+	case 4:
+		wOrd, wCT = 1, 2
+	case 5:
+		wHash = 1
+	}
+	return bytesJoin([]byte{0x76, 0xa9}, pd(hash, wHash), []byte{0x88, 0xac, 0x00, 0x63}, pd([]byte("ord"), wOrd), []byte{0x51},
+		pd([]byte("text/plain"), wCT), []byte{0x00}, pd([]byte("hello, world!"), wData), []byte{0x68})
 }
 
 // mutation classes
@@ -66,7 +103,7 @@ func c04Ref(c c04Case, lock []byte) *txref.Tx {
 	for i := 0; i < c.NIn; i++ {
 		in := p2pkhIn(i, uint64(9000+i))
 		in.Seq = 0xfffffff0 + uint32(i)
-		if i == c.Pos {
+		if i == c.Pos || c.All {
 			in.PrevScript = lock
 		}
 		t.Ins = append(t.Ins, in)
@@ -231,7 +268,9 @@ var c04Keys = testPrivKeys(8)
 func c04Check(c c04Case) (fs []rep.Finding) {
 	priv, pub := bec.PrivKeyFromBytes(bec.S256(), c04Keys[c.Key])
 	lock := refP2PKH(refHash160(pub.SerialiseCompressed()))
-	if c.Insc {
+	if c.Insc && c.Form != 0 {
+		lock = c04InscLock(refHash160(pub.SerialiseCompressed()), c.Form)
+	} else if c.Insc {
 		lock = append(append([]byte(nil), lock...), c14Templates()["inscription"][25:]...)
 		if c.Trailer > 0 {
 			// OP_RETURN followed by one push of Trailer bytes (as Inscribe's enrichment produces)
@@ -300,6 +339,9 @@ func c04Resign(c c04Case, priv *bec.PrivateKey, lock []byte) (fs []rep.Finding) 
 	}
 	u := &unlocker.Simple{PrivateKey: priv}
 	sign := func() error {
+		if c.All {
+			return tx.FillAllInputs(context.Background(), &unlocker.Getter{PrivateKey: priv})
+		}
 		return tx.FillInput(context.Background(), u, bt.UnlockerParams{InputIdx: uint32(c.Pos), SigHashFlags: sighash.Flag(c.HT)})
 	}
 	if err := sign(); err != nil {
@@ -350,16 +392,38 @@ func c04Resign(c c04Case, priv *bec.PrivateKey, lock []byte) (fs []rep.Finding) 
 		tx.Inputs[c.Pos].PreviousTxSatoshis += 4
 		ref.Ins[c.Pos].PrevSats += 4
 	case mInInsert:
-		_ = tx.FromUTXOs(&bt.UTXO{TxID: txid32(0xe7), Vout: 1, Satoshis: 77, LockingScript: libScript(refP2PKH(fill(20, 9)))})
-		ref.Ins = append(ref.Ins, txref.In{TxID: txid32(0xe7), Vout: 1, Seq: 0xffffffff, PrevSats: 77, PrevScript: refP2PKH(fill(20, 9))})
+		newLock := refP2PKH(fill(20, 9))
+		if c.All {
+			newLock = lock // FillAllInputs signs this one too, with the same key
+		}
+		_ = tx.FromUTXOs(&bt.UTXO{TxID: txid32(0xe7), Vout: 1, Satoshis: 77, LockingScript: libScript(newLock)})
+		ref.Ins = append(ref.Ins, txref.In{TxID: txid32(0xe7), Vout: 1, Seq: 0xffffffff, PrevSats: 77, PrevScript: newLock})
+	case mNone:
+		if !c.All {
+			return nil
+		}
 	default:
 		return nil
 	}
 	if err := sign(); err != nil {
 		return append(fs, rep.F("sign|error", err.Error()))
 	}
-	ref.Ins[c.Pos].Script = append([]byte(nil), *tx.Inputs[c.Pos].UnlockingScript...)
 	forkid := c.HT&0x40 != 0
+	if c.All {
+		// every input was signed (again): every one of them must verify for the transaction as it is now
+		for i := range ref.Ins {
+			ref.Ins[i].Script = append([]byte(nil), *tx.Inputs[i].UnlockingScript...)
+		}
+		for i := range ref.Ins {
+			if err := c04Verify(ref, i, true, nil); err != nil {
+				fs = append(fs, rep.F(fmt.Sprintf("fill-all-resigned-after-edit-rejected|%s", mutNames[c.Mut]),
+					fmt.Sprintf("input %d, signed through FillAllInputs after an in-place edit of the transaction, is rejected: %v", i, err)))
+				break
+			}
+		}
+		return
+	}
+	ref.Ins[c.Pos].Script = append([]byte(nil), *tx.Inputs[c.Pos].UnlockingScript...)
 	if err := c04Verify(ref, c.Pos, forkid, nil); err != nil {
 		alg := "legacy"
 		if forkid {
@@ -373,7 +437,7 @@ func c04Resign(c c04Case, priv *bec.PrivateKey, lock []byte) (fs []rep.Finding) 
 
 func init() {
 	p := register(&Prop{ID: "C04", Level: "exploration",
-		Rule: "exhaustive product: 4 (quick) / 8 (thorough) private keys (incl. 1 and n-1) x shapes nIn 1..3 x nOut 0..3 x every signed position x spent script {P2PKH, P2PKH inscription, inscription with an OP_RETURN trailer pushing 1,2,3,4,75,76 bytes} x the 6 FORKID hash types verified with the FORKID flag and the 6 legacy types verified without it x EVERY single-field mutation class at every position, numeric fields changed in their lowest and in their highest byte (version, locktime, each input's txid/vout/sequence, another input's unlocking script / spent value, each output's value/script, output insertion at every gap / removal, input insertion at every gap / removal, adjacent swaps, spent value, spent script; the spent-output mutations also with the transaction object still carrying the signer-side record of the spent output). The input is signed through Tx.FillInput + unlocker.Simple and verified with interpreter.Execute(WithTx, WithAfterGenesis[, WithForkID]). plus sign -> in-place edit of the same Tx object -> sign again -> verify sequences (10 edit kinds). Oracle: unmutated accepted; re-signed accepted; mutated accepted iff the reference digest (certified on the node vectors) of the mutated context equals the original digest. distinct_nontrivial = distinct (shape, position, hash type, mutation) verifications",
+		Rule: "exhaustive product: 4 (quick) / 8 (thorough) private keys (incl. 1 and n-1) x shapes nIn 1..3 x nOut 0..3 x every signed position x spent script {P2PKH, P2PKH inscription, inscription with an OP_RETURN trailer pushing 1,2,3,4,75,76 bytes, inscriptions whose envelope uses non-minimal pushes (content through OP_PUSHDATA1/2/4, tag and content type through PUSHDATA1/2, key hash through PUSHDATA1)} x the 6 FORKID hash types verified with the FORKID flag and the 6 legacy types verified without it x EVERY single-field mutation class at every position, numeric fields changed in their lowest and in their highest byte (version, locktime, each input's txid/vout/sequence, another input's unlocking script / spent value, each output's value/script, output insertion at every gap / removal, input insertion at every gap / removal, adjacent swaps, spent value, spent script; the spent-output mutations also with the transaction object still carrying the signer-side record of the spent output). The input is signed through Tx.FillInput + unlocker.Simple and verified with interpreter.Execute(WithTx, WithAfterGenesis[, WithForkID]). plus sign -> in-place edit of the same Tx object -> sign again -> verify sequences (10 edit kinds), through FillInput and - every input spending the same script - through FillAllInputs twice (every input must verify afterwards). Oracle: unmutated accepted; re-signed accepted; mutated accepted iff the reference digest (certified on the node vectors) of the mutated context equals the original digest. distinct_nontrivial = distinct (shape, position, hash type, mutation) verifications",
 	})
 	sp := NewSpace(p, "sign-mutate-verify", c04Check)
 	p.Run = func(r *rep.Run, thorough bool) {
@@ -388,7 +452,7 @@ func init() {
 		(&Space[c04Case]{P: p, Name: sp.Name, Check: func(c c04Case) []rep.Finding {
 			fs := c04Check(c)
 			if len(fs) == 0 {
-				r.Distinct(fmt.Sprint(c.NIn, c.NOut, c.Pos, c.Insc, c.HT, c.Mut, c.Param, c.Stale, c.Trailer, c.Resign))
+				r.Distinct(fmt.Sprint(c.NIn, c.NOut, c.Pos, c.Insc, c.HT, c.Mut, c.Param, c.Stale, c.Trailer, c.Resign, c.Form, c.All))
 			}
 			return fs
 		}}).Each(r, func(yield func(c04Case)) {
@@ -420,6 +484,13 @@ func init() {
 												for _, tr := range []int{1, 2, 3, 4, 75, 76} {
 													yield(c04Case{Key: k, NIn: nin, NOut: nout, Pos: pos, Insc: true, Trailer: tr, HT: ht, Mut: m})
 												}
+												for form := 1; form <= 5; form++ {
+													yield(c04Case{Key: k, NIn: nin, NOut: nout, Pos: pos, Insc: true, Form: form, HT: ht, Mut: m})
+													yield(c04Case{Key: k, NIn: nin, NOut: nout, Pos: pos, Insc: true, Form: form, Trailer: 2, HT: ht, Mut: m})
+												}
+											}
+											if ht == 0x41 && pos == 0 && k < 2 && prm <= 2 {
+												yield(c04Case{Key: k, NIn: nin, NOut: nout, Pos: pos, Insc: insc, HT: ht, Mut: m, Param: prm, Resign: true, All: true})
 											}
 										}
 									}
